@@ -18,7 +18,21 @@ def main():
     cases = []
     for i in range(n):
         deep = chk.thorough and i % 5 == 0
-        prog, pop = progs.generate(rng, size=20 if deep else 12, max_depth=4 if deep else 3)
+        if i % 4 == 3:
+            # matrix blocks with rich bodies: a population with a matrix light, half of the `set`
+            # commands matrix commands, definitions allowed inside blocks
+            pop = progs.population(rng)
+            if not any(s['kind'] == 'matrix' for s in pop):
+                pop = [s for s in pop if s['label'] != 'Candle']
+                pop.append({'label': 'Candle', 'group': 'Den', 'location': 'Office', 'kind': 'matrix',
+                            'height': 3, 'width': 2, 'power': 0, 'color': [0, 0, 0, 3500],
+                            'cells': [[0, 0, 0, 3500]] * 6})
+            prog, pop = progs.generate(rng, pop=pop, size=12, max_depth=3,
+                                       features={'matrix_p': 0.5, 'nested_define': True,
+                                                 'weights': {'action': 8}})
+            stats['matrix_heavy'] = stats.get('matrix_heavy', 0) + 1
+        else:
+            prog, pop = progs.generate(rng, size=20 if deep else 12, max_depth=4 if deep else 3)
         cases.append(progcheck.Case(prog, pop))
     # fixed corpus: constructs the property names explicitly
     for text_prog in CORPUS:
